@@ -290,6 +290,8 @@ def run(ctx: Ctx) -> int:
         defs = [d for d in alld if d.layer != "L1" or d.core or ctx.in_slice(d.name, 4) or True]
     else:
         defs = [d for d in alld if d.layer == "L3i" or (d.core and (d.layer != "L1" or ("k0" in d.name or "k7" in d.name or d.name.startswith("L1e")))) or (d.layer in ("L3", "L4") and ctx.in_slice(d.name))]
+        # the 255..257-option unions take ~100 s per sanitizer build of their C++ variant: thorough only here (C01/C02/C05 run them in quick)
+        defs = [d for d in defs if not d.name.startswith("L4big")]
     shards = E.make_shards(defs, 8 if not ctx.thorough else 20)
     cfgs = configs(ctx)
     jobs = E.debug_filter([(i, sh, ctx.scratch, ctx.thorough, cfgs) for i, sh in enumerate(shards)])
